@@ -4,6 +4,10 @@ import Rivaas.Spec.Bind
 import Rivaas.Lemmas.BindVal
 import Rivaas.Lemmas.BindFlatten
 import Rivaas.Lemmas.BindConv
+import Rivaas.Lemmas.BindRef
+import Rivaas.Lemmas.BindSound
+import Rivaas.Lemmas.BindMap
+import Rivaas.Model.BindObs
 /-
 C04 — Request binding is faithful, total and bounded. Property theorems.
 -/
@@ -76,5 +80,333 @@ theorem convert_asis_witness :
     (Spec.denote P300 Cfg.default (.int 8) (B "300")).val = none ∧
     convPrim P300 Cfg.default (.int 8) (B "300") = none := by
   refine ⟨by decide, by decide, by decide, by decide⟩
+
+
+/-! ## 3. The bind loop over cached index paths is the field-by-field recursion -/
+
+/-- **K04a at bind level, all shapes.** For every struct type, every well-typed destination, every
+    source and options, looping over the cached index paths computes exactly what the structural
+    recursion over the type computes (each promoted field handled with its own value and key;
+    embedded nil pointers allocated iff a promoted field below receives a value). -/
+theorem bind_loop_is_structural (P : Params) (cfg : Cfg) (nest : Nest) (tag : Tag) (g : Getter) (d : Nat)
+    (sty : List Fld) (vs : List Val) (hw : wts sty vs = true) :
+    loopWith P cfg nest sty (flatten P tag sty) (.struct vs) g d = refOut [] (refFs P cfg nest tag g d sty vs) :=
+  lemma_loop_eq_ref P cfg nest tag g d sty vs hw
+
+/-! ## 4. Binding meets the oracle: faithful, total, bounded -/
+
+theorem lemma_keyed_top (s : Src) (l : Spec.Leaf) : keyed { src := s } l = l := by
+  cases l
+  simp [keyed]
+
+/-- bindFieldsWithDepth at any depth meets the oracle for the struct it binds (by induction on the
+    number of nesting levels the depth limit still allows) -/
+theorem lemma_bindAt_spec (P : Params) (hP : FloatSane P) (cfg : Cfg) (tag : Tag) :
+    ∀ (n d : Nat), cfg.maxDepth ≤ d + n → NestSpec P cfg tag (bindAt P cfg tag n) d
+  | 0, d, hnd => by
+    intro nfs ivs g hw hg hs
+    have hn : d + 1 ≤ cfg.maxDepth → NestSpec P cfg tag (fun _ _ _ _ => Outcome.err Err.depth) (d + 1) := by
+      intro h; omega
+    have hfs := lemma_ref_fs P cfg _ tag hP g hs d hn nfs 0 ivs hw hg
+    simp only [bindAt]
+    rw [lemma_loop_eq_ref P cfg _ tag g d nfs ivs hw]
+    cases hr : refFs P cfg (fun _ _ _ _ => Outcome.err Err.depth) tag g d nfs ivs with
+    | inl rvs =>
+      rw [hr] at hfs
+      simp only [refOut, List.nil_append]
+      exact hfs.2 ivs rvs (fun j => by simp) (fun j => by simp)
+    | inr o =>
+      rw [hr] at hfs
+      cases o with
+      | panic => exact hfs
+      | err e =>
+        simp only [refOut, Stop.out]
+        exact hfs ivs (fun j => by simp)
+  | n + 1, d, hnd => by
+    intro nfs ivs g hw hg hs
+    have hn : d + 1 ≤ cfg.maxDepth → NestSpec P cfg tag (bindAt P cfg tag n) (d + 1) := by
+      intro _
+      exact lemma_bindAt_spec P hP cfg tag n (d + 1) (by omega)
+    have hfs := lemma_ref_fs P cfg _ tag hP g hs d hn nfs 0 ivs hw hg
+    simp only [bindAt]
+    rw [lemma_loop_eq_ref P cfg _ tag g d nfs ivs hw]
+    cases hr : refFs P cfg (bindAt P cfg tag n) tag g d nfs ivs with
+    | inl rvs =>
+      rw [hr] at hfs
+      simp only [refOut, List.nil_append]
+      exact hfs.2 ivs rvs (fun j => by simp) (fun j => by simp)
+    | inr o =>
+      rw [hr] at hfs
+      cases o with
+      | panic => exact hfs
+      | err e =>
+        simp only [refOut, Stop.out]
+        exact hfs ivs (fun j => by simp)
+
+/-- **C04, main theorem.** For every struct type of the grammar (nested, embedded to any depth,
+    pointers, slices, maps, aliases, defaults), every well-typed destination (zero or pre-filled),
+    every source of the five kinds and every option setting, what the model of `binding` returns is
+    admitted by the oracle: on success every leaf holds exactly the converted value of its own key,
+    its default, or what it held before; every error names an offending field with an admissible
+    class (unrepresentable value, slice / map / depth limit); binding never panics. -/
+theorem bind_meets_spec (P : Params) (hP : FloatSane P) (cfg : Cfg) (tag : Tag) (fs : List Fld) (ivs : List Val)
+    (src : Src) (hw : wts fs ivs = true) (hg : Spec.inGrammarFs fs = true) (hs : Spec.srcOK src = true) :
+    Spec.specOK P cfg tag fs (.struct ivs) src (toObs (bind P cfg tag (.struct fs) (.struct ivs) src)) = true := by
+  have hsp := lemma_bindAt_spec P hP cfg tag cfg.maxDepth 0 (by omega) fs ivs { src := src } hw hg hs
+  simp only [Rivaas.Bind.bind]
+  cases hr : bindAt P cfg tag cfg.maxDepth fs (.struct ivs) { src := src } 0 with
+  | panic => rw [hr] at hsp; exact absurd hsp (by simp)
+  | err e =>
+    rw [hr] at hsp
+    simp only [toObs, Spec.specOK, Spec.causes, List.contains_iff_mem, List.mem_append, List.mem_flatMap, List.mem_map,
+      List.mem_filter, Spec.leavesOf, Spec.nodesOf, List.mem_filterMap, Spec.items]
+    rcases hsp with ⟨l, hl, c, hc, hh⟩ | ⟨n, hn, hd, he⟩
+    · left
+      refine ⟨l, ⟨.leaf l, hl, rfl⟩, c, ?_, hc.symm⟩
+      rw [lemma_keyed_top] at hh
+      rcases hh with h | ⟨h1, h2⟩
+      · exact Or.inl h
+      · right
+        simp only [h1, if_true, List.mem_cons, List.mem_nil_iff, or_false]
+        exact h2
+    · right
+      exact ⟨n, ⟨⟨.node n, hn, rfl⟩, by simpa using hd⟩, he.symm⟩
+  | ok v =>
+    rw [hr] at hsp
+    obtain ⟨h1, h2⟩ := hsp
+    simp only [toObs, Spec.specOK, Bool.and_eq_true, Bool.not_eq_true', List.all_eq_true, Bool.or_eq_true,
+      List.any_eq_true, Spec.mustFail, Bool.or_eq_false_iff, List.any_eq_false, Spec.leavesOf, Spec.nodesOf,
+      List.mem_filterMap, Spec.items]
+    refine ⟨⟨?_, ?_⟩, ?_⟩
+    · rintro l ⟨x, hx, hxl⟩
+      cases x with
+      | node n => simp at hxl
+      | leaf l0 =>
+        simp only [Option.some.injEq] at hxl
+        subst hxl
+        have := h1 l0 hx
+        rw [lemma_keyed_top] at this
+        rcases this with h | ⟨e, he, _⟩
+        · simp [h]
+        · cases hoks : (Spec.expect P cfg src (.struct ivs) l0).oks with
+          | nil => rw [hoks] at he; cases he
+          | cons _ _ => simp
+    · rintro n ⟨x, hx, hxn⟩
+      cases x with
+      | leaf l => simp at hxn
+      | node n0 =>
+        simp only [Option.some.injEq] at hxn
+        subst hxn
+        have := h2 n0 hx
+        first
+          | omega
+          | (simp only [decide_eq_false_iff_not, Nat.not_lt]; omega)
+          | (simp; omega)
+    · rintro l ⟨x, hx, hxl⟩
+      cases x with
+      | node n => simp at hxl
+      | leaf l0 =>
+        simp only [Option.some.injEq] at hxl
+        subst hxl
+        have := h1 l0 hx
+        rw [lemma_keyed_top] at this
+        rcases this with h | ⟨e, he, hh⟩
+        · exact Or.inl h
+        · exact Or.inr ⟨e, he, hh⟩
+
+
+/-- **total.** Binding into a well-typed destination never panics — whatever the source holds,
+    whatever the shape of the type (nil embedded pointers, pointers to slices and maps included). -/
+theorem bind_total (P : Params) (hP : FloatSane P) (cfg : Cfg) (tag : Tag) (fs : List Fld) (ivs : List Val)
+    (src : Src) (hw : wts fs ivs = true) (hg : Spec.inGrammarFs fs = true) (hs : Spec.srcOK src = true) :
+    bind P cfg tag (.struct fs) (.struct ivs) src ≠ .panic := by
+  intro h
+  have := bind_meets_spec P hP cfg tag fs ivs src hw hg hs
+  rw [h] at this
+  simp [toObs, Spec.specOK] at this
+
+/-- **bounded depth.** A bind that succeeds has not descended below the configured depth: every
+    nested struct of the type lies within `maxDepth`. -/
+theorem bind_depth_bound (P : Params) (hP : FloatSane P) (cfg : Cfg) (tag : Tag) (fs : List Fld) (ivs : List Val)
+    (src : Src) (hw : wts fs ivs = true) (hg : Spec.inGrammarFs fs = true) (hs : Spec.srcOK src = true) (v : Val)
+    (h : bind P cfg tag (.struct fs) (.struct ivs) src = .ok v) :
+    ∀ n ∈ Spec.nodesOf tag fs, n.depth ≤ cfg.maxDepth := by
+  have := bind_meets_spec P hP cfg tag fs ivs src hw hg hs
+  rw [h] at this
+  simp only [toObs, Spec.specOK, Bool.and_eq_true, Bool.not_eq_true', Spec.mustFail, Bool.or_eq_false_iff,
+    List.any_eq_false] at this
+  intro n hn
+  have := this.1.2 n hn
+  simpa using this
+
+/-- **errors name the field.** An error outcome is a `BindError` chain that names a field of the type
+    (a leaf with an admissible error class, or the nested struct that exceeds the depth limit). -/
+theorem bind_error_names_field (P : Params) (hP : FloatSane P) (cfg : Cfg) (tag : Tag) (fs : List Fld) (ivs : List Val)
+    (src : Src) (hw : wts fs ivs = true) (hg : Spec.inGrammarFs fs = true) (hs : Spec.srcOK src = true) (e : Err)
+    (h : bind P cfg tag (.struct fs) (.struct ivs) src = .err e) :
+    e ∈ Spec.causes P cfg tag fs (.struct ivs) src := by
+  have := bind_meets_spec P hP cfg tag fs ivs src hw hg hs
+  rw [h] at this
+  simpa [toObs, Spec.specOK] using this
+
+theorem lemma_mapMOpt_length {α β} (f : α → Option β) : ∀ (xs : List α) (ys : List β),
+    mapMOpt f xs = some ys → ys.length = xs.length
+  | [], ys, h => by simp [mapMOpt] at h; simp [← h]
+  | x :: r, ys, h => by
+    simp only [mapMOpt] at h
+    cases hx : f x with
+    | none => simp [hx] at h
+    | some y =>
+      cases hr : mapMOpt f r with
+      | none => simp [hx, hr] at h
+      | some yr =>
+        simp only [hx, hr, Option.some.injEq] at h
+        subst h
+        simp [lemma_mapMOpt_length f r yr hr]
+
+/-- **bounded slices.** setSliceField never stores more elements than `maxSliceLen` (0 = no limit). -/
+theorem slice_len_bound (P : Params) (cfg : Cfg) (ty : Ty) (cur : Val) (values : List Bytes) (vs : List Val)
+    (h : setSlice P cfg ty cur values = .ok (.list vs) ∨ setSlice P cfg ty cur values = .ok (.ptr (.list vs)))
+    (hne : values ≠ []) : cfg.maxSlice = 0 ∨ vs.length ≤ cfg.maxSlice := by
+  have hemp : values.isEmpty = false := by cases values with
+    | nil => exact absurd rfl hne
+    | cons _ _ => rfl
+  unfold setSlice at h
+  simp only [hemp, Bool.false_eq_true, if_false] at h
+  generalize (if (cfg.csv && values.length == 1) = true then List.map trimSpace (splitB ',' (values.headD [])) else values) = vals at h
+  by_cases hlim : (decide (cfg.maxSlice > 0) && decide (vals.length > cfg.maxSlice)) = true
+  · simp [hlim] at h
+  · have hlim' : (decide (cfg.maxSlice > 0) && decide (vals.length > cfg.maxSlice)) = false := by simpa using hlim
+    simp only [hlim', Bool.false_eq_true, if_false] at h
+    have hlen : ∀ (e : Ty) (ys : List Val), mapMOpt (convTy P cfg e) vals = some ys → ys.length = vals.length :=
+      fun e ys hy => lemma_mapMOpt_length (convTy P cfg e) vals ys hy
+    have key : ∀ ys, vs = ys → ys.length = vals.length → cfg.maxSlice = 0 ∨ vs.length ≤ cfg.maxSlice := by
+      intro ys hy hl
+      subst hy
+      cases h1 : decide (cfg.maxSlice > 0) with
+      | false => left; simp at h1; omega
+      | true =>
+        right
+        simp only [h1, Bool.true_and, decide_eq_false_iff_not, Nat.not_lt] at hlim'
+        omega
+    split at h
+    · rename_i e
+      cases hm : mapMOpt (convTy P cfg e) vals with
+      | none => simp [hm] at h
+      | some ys =>
+        simp only [hm] at h
+        rcases h with h | h
+        · simp only [Except.ok.injEq, Val.list.injEq] at h
+          exact key ys h.symm (hlen e ys hm)
+        · simp at h
+    · rename_i e
+      cases hm : mapMOpt (convTy P cfg e) vals with
+      | none => simp [hm] at h
+      | some ys =>
+        simp only [hm] at h
+        rcases h with h | h
+        · simp at h
+        · simp only [Except.ok.injEq, Val.ptr.injEq, Val.list.injEq] at h
+          exact key ys h.symm (hlen e ys hm)
+    · simp at h
+
+/-- **bounded maps.** A map field that was bound holds at most `maxMapSize` entries from this
+    source (0 = no limit): neither the dot/bracket keys nor a JSON object under the bare key exceed it. -/
+theorem map_size_bound (P : Params) (cfg : Cfg) (p : Prim) (isPtr : Bool) (cur : Val) (g : Getter) (name : Bytes) (v : Val)
+    (h : setMap P cfg (if isPtr then .ptr (.map (.prim p)) else .map (.prim p)) cur g name = .ok v) :
+    cfg.maxMap = 0 ∨
+      ((entriesOf g.src (g.pre ++ name)).length ≤ cfg.maxMap ∧
+       ((entriesOf g.src (g.pre ++ name)) = [] → g.has name = true → (g.get name).isEmpty = false →
+          ∀ es, (P (g.get name)).j = some es → es.length ≤ cfg.maxMap)) := by
+  rw [lemma_setMap_core P cfg p isPtr cur g name _ rfl] at h
+  unfold setMapCore at h
+  by_cases hz : cfg.maxMap = 0
+  · exact Or.inl hz
+  · right
+    have hpos : cfg.maxMap > 0 := by omega
+    generalize entriesOf g.src (g.pre ++ name) = E at h
+    by_cases hlen : E.length > cfg.maxMap
+    · have : (decide (E.length > 0) && decide (cfg.maxMap > 0) && decide (E.length > cfg.maxMap)) = true := by
+        have : E.length > 0 := by omega
+        simp only [decide_eq_true this, decide_eq_true hpos, decide_eq_true hlen, Bool.and_self]
+      simp [this] at h
+    · refine ⟨by omega, ?_⟩
+      intro hE hhas hjv es hes
+      subst hE
+      simp only [List.length_nil, Nat.lt_irrefl, decide_false, Bool.false_and, Bool.false_eq_true, if_false, bindEs,
+        List.isEmpty_nil, Bool.true_and, hhas, if_true, hjv, hes, gt_iff_lt] at h
+      by_cases hl : es.length > cfg.maxMap
+      · have : (decide (0 < cfg.maxMap) && decide (cfg.maxMap < es.length)) = true := by
+          simp only [decide_eq_true hpos, decide_eq_true hl, Bool.and_self]
+        simp [this] at h
+      · omega
+
+/-! ### non-vacuity: the hypotheses of the main theorem on a concrete, non-trivial input -/
+
+/-- strconv on the strings `7` and `300` -/
+def P7 : Params := fun s =>
+  if s = B "7" then { i10 := some 7, i0 := some 7, u10 := some 7, u0 := some 7 }
+  else if s = B "300" then { i10 := some 300, i0 := some 300, u10 := some 300, u0 := some 300 }
+  else {}
+
+theorem lemma_P7_sane : FloatSane P7 := by
+  intro s b64 b32 above inf32 h
+  unfold P7 at h
+  split at h
+  · simp at h
+  · split at h <;> simp at h
+
+/-- embedding depth 3 through an embedded pointer, destination zero (the pointer is nil) -/
+def srcXY (x y : String) : Src := { kind := .query, kvs := [(B "x", [B x]), (B "y", [B y])] }
+
+example : wts tyD3 (zeroFs tyD3) = true ∧ Spec.inGrammarFs tyD3 = true ∧ Spec.srcOK (srcXY "7" "7") = true := by decide
+
+/-- both promoted fields at depth 3 are bound, the nil embedded pointer is allocated -/
+example : toObs (bind P7 Cfg.default .query (.struct tyD3) (.struct (zeroFs tyD3)) (srcXY "7" "7")) =
+    .ok (.struct [.struct [.ptr (.struct [.struct [.int 7, .uint 7]])]]) := by decide
+
+/-- `300` for the uint8 field `y`: an error naming `y`, nothing truncated -/
+example : toObs (bind P7 Cfg.default .query (.struct tyD3) (.struct (zeroFs tyD3)) (srcXY "7" "300")) =
+    .err (.bind (B "y") .conv) := by decide
+
+example : Spec.specOK P7 Cfg.default .query tyD3 (.struct (zeroFs tyD3)) (srcXY "7" "7")
+    (.ok (.struct [.struct [.ptr (.struct [.struct [.int 7, .uint 7]])]])) = true :=
+  by decide
+
+/-- the oracle is not trivially true: the as-shipped outcome (only `y` bound) is rejected -/
+example : Spec.specOK P7 Cfg.default .query tyD3 (.struct (zeroFs tyD3)) (srcXY "7" "7")
+    (.ok (.struct [.struct [.ptr (.struct [.struct [.int 0, .uint 7]])]])) = false :=
+  by decide
+
+/-- … and so is a truncated value -/
+example : Spec.specOK P7 Cfg.default .query tyD3 (.struct (zeroFs tyD3)) (srcXY "7" "300")
+    (.ok (.struct [.struct [.ptr (.struct [.struct [.int 7, .uint 44]])]])) = false :=
+  by decide
+
+/-! ### the conversion theorems (proved in `Lemmas/BindConv`) -/
+
+/-- **K04b, repaired code.** A successful integer conversion yields exactly the parsed number, and
+    that number fits the field's width: nothing is truncated or wrapped. -/
+theorem convert_no_truncation_int (P : Params) (cfg : Cfg) (w : Nat) (s : Bytes) (v : Val)
+    (h : convPrim P cfg (.int w) s = some v) :
+    ∃ i, (if cfg.baseAuto then (P s).i0 else (P s).i10) = some i ∧ v = .int i ∧ Spec.fitsInt w i :=
+  Bind.convert_no_truncation_int P cfg w s v h
+
+theorem convert_no_truncation_uint (P : Params) (cfg : Cfg) (w : Nat) (s : Bytes) (v : Val)
+    (h : convPrim P cfg (.uint w) s = some v) :
+    ∃ n, (if cfg.baseAuto then (P s).u0 else (P s).u10) = some n ∧ v = .uint n ∧ Spec.fitsUint w n :=
+  Bind.convert_no_truncation_uint P cfg w s v h
+
+/-- a finite value never becomes an infinity in a float32 field -/
+theorem convert_no_infinity (P : Params) (hP : FloatSane P) (cfg : Cfg) (s : Bytes) (v : Val)
+    (h : convPrim P cfg .f32 s = some v) :
+    ∃ b64 b32, (P s).f = some (b64, b32, false, false) ∧ v = .flt b32 :=
+  Bind.convert_no_infinity P hP cfg s v h
+
+/-- the model's conversion meets the oracle's reading of "converted value" for every leaf kind -/
+theorem conv_meets_denote (P : Params) (hP : FloatSane P) (cfg : Cfg) (p : Prim) (s : Bytes) :
+    (∀ v, convPrim P cfg p s = some v → (Spec.denote P cfg p s).val = some v) ∧
+    (convPrim P cfg p s = none → (Spec.denote P cfg p s).refusable = true) :=
+  Bind.conv_meets_denote P hP cfg p s
 
 end Rivaas.C04
